@@ -114,6 +114,39 @@ def judge(ctx, clause, keyprefix, job, rep, kind):
     return rep['schedules']
 
 
+def phase(ctx, jobs, clause, kind='cold', offset=3):
+    """Run the jobs (spread over shards starting at `offset`), fold the reports into ctx, record
+    what the scheduler explored.  Returns the number of schedules run by this shard."""
+    n = 0
+    for ji, job in enumerate(jobs):
+        if ji % ctx.nshards != (ctx.shard - offset) % ctx.nshards:
+            continue
+        rep = run_job(job)
+        k = judge(ctx, clause, 'cold', job, rep, kind)
+        n += k
+        if k:
+            ctx.nontrivial(None, k)
+            ctx.extra('cold_start_schedules', k)
+            ctx.extra('cold_start_steps', rep['steps'])
+            ctx.extra('cold_start_distinct_traces', rep['distinct_traces'])
+            if ji == 0:
+                ctx.put_sample({'kind': 'cold-start', 'schedules': k, 'distinct_traces': rep['distinct_traces'],
+                                'switch_sites': rep['switch_sites'][:12]})
+    return n
+
+
+def replay(ctx, case, clause):
+    job = dict(case['job'])
+    rep = run_job(job)
+    judge(ctx, clause, 'cold', job, rep, case['kind'])
+
+
+def msg_want(t, a, cls='Message', time=0):
+    want = {'type': t, 'time': time, 'class': cls}
+    want.update({k: list(v) if isinstance(v, tuple) else v for k, v in a.items()})
+    return want
+
+
 def main():
     job = json.load(sys.stdin)
     modules = job['modules']
